@@ -2,6 +2,7 @@ import AcraModel.Envelope.Masking
 import AcraModel.Envelope.MaskLemmas
 import AcraModel.Envelope.MaskSession
 import AcraModel.Envelope.MaskHeaderLemmas
+import AcraModel.Envelope.MaskWindowLemmas
 import AcraModel.Generated.MaskFlow
 import AcraModel.Props.C01
 /-!
@@ -387,7 +388,88 @@ theorem mask_lookalike_header_sealed (c : CryptoOps) (kv : KeyView) (cfg : MaskC
   obtain ⟨h1, h2⟩ := header_lookalike_not_protected L junk id k cfg.kind hL hk hj hno
   exact mask_hidden_sealed c kv cfg v rnd stored hpat (by rw [hhid]; exact h1) (by rw [hhid]; exact h2) hw
 
-/-! ## 8. non-vacuity: every hypothesis bundle above is met by a concrete instance -/
+/-! ## 8. clear windows that contain `%`
+
+`cleanWindow` (no `%` in the window) is much more than the read theorems need. What they need is that
+the column scan passes over every position of the window: `maskWindowOk cfg w p` (in
+`Envelope/MaskWindowLemmas.lean`) says that at no position inside the window – read together with the
+bytes that follow it in the stored value, the real container's header included – does
+`ExtractSerializedContainer` succeed. It is stated with the model's own decode attempt, it is
+executable (the harness asks the model for it, op `C11.windowok`, and judges exactly the windows that
+satisfy it), and the theorems of §1–§3 hold under it. -/
+
+/-- the old hypothesis implies the new one -/
+theorem window_ok_of_clean (cfg : MaskCfg) (w p : Bytes) (h : cleanWindow w) : maskWindowOk cfg w p = true :=
+  maskWindowOk_of_noPct cfg w p (cleanWindow_noPct h)
+
+/-- **Non-owner, any window the scan passes over**: `mask_other` with `cleanWindow` replaced by the
+condition actually needed. The window may contain `%`, `%%`, even `%%%` – as long as no position in it
+decodes as a container start when read in front of the real container (left window) resp. on its own
+(right window). -/
+theorem mask_other_window (c : CryptoOps) (kvW kvR : KeyView) (cfg : MaskCfg) (v rnd p stored : Bytes)
+    (hpat : cfg.pattern ≠ [])
+    (hwin : maskWindowOk cfg (windowPart cfg v) p = true)
+    (h : NonOwnerHyps c kvW kvR cfg v rnd p)
+    (hw : maskWrite c kvW cfg v rnd = .ok stored) :
+    maskRead c kvR cfg stored = .ok (joinSides cfg (windowPart cfg v) cfg.pattern) true :=
+  maskRead_nonOwner_win c kvW kvR cfg v rnd p stored hpat hwin h hw
+
+/-- **Owner, any window the scan passes over**: `mask_owner` under the weaker window condition. -/
+theorem mask_owner_window (c : CryptoOps) (kvW kvR : KeyView) (cfg : MaskCfg) (v rnd stored : Bytes)
+    (hpat : cfg.pattern ≠ [])
+    (hnm : matchKind cfg.kind (hiddenPart cfg v) = false) (hnr : registryMatch (hiddenPart cfg v) = false)
+    (hrt : ∀ p, protect c kvW cfg.kind (hiddenPart cfg v) rnd = .ok p →
+      maskWindowOk cfg (windowPart cfg v) p = true ∧
+      RoundTripHyps c cfg.kind kvW kvR (hiddenPart cfg v) rnd p ∧
+      hiddenPart cfg v ≠ p ++ afterContainer cfg (windowPart cfg v))
+    (hw : maskWrite c kvW cfg v rnd = .ok stored) :
+    maskRead c kvR cfg stored = .ok v true := by
+  obtain ⟨p, hp, rfl⟩ := maskWrite_ok hpat hw
+  obtain ⟨hwin, h, hne⟩ := hrt p hp
+  obtain ⟨e, rfl, he, hlen, hproc⟩ := protect_roundtrip_facts c cfg.kind kvW kvR _ rnd p h hnm hnr hp
+  rw [maskRead_owner_win c kvR cfg _ e _ hpat hwin he hlen (hproc _) hne, joinSides_parts]
+
+/-- non-interference under the weaker window condition: two values with the same window are
+indistinguishable for a reader who can open neither -/
+theorem mask_noninterference_window (c : CryptoOps) (kvR : KeyView) (cfg : MaskCfg)
+    (kvW₁ kvW₂ : KeyView) (v₁ v₂ rnd₁ rnd₂ p₁ p₂ stored₁ stored₂ : Bytes)
+    (hpat : cfg.pattern ≠ [])
+    (hwin : windowPart cfg v₁ = windowPart cfg v₂)
+    (hok₁ : maskWindowOk cfg (windowPart cfg v₁) p₁ = true) (hok₂ : maskWindowOk cfg (windowPart cfg v₂) p₂ = true)
+    (h₁ : NonOwnerHyps c kvW₁ kvR cfg v₁ rnd₁ p₁) (hw₁ : maskWrite c kvW₁ cfg v₁ rnd₁ = .ok stored₁)
+    (h₂ : NonOwnerHyps c kvW₂ kvR cfg v₂ rnd₂ p₂) (hw₂ : maskWrite c kvW₂ cfg v₂ rnd₂ = .ok stored₂) :
+    maskRead c kvR cfg stored₁ = maskRead c kvR cfg stored₂ := by
+  rw [mask_other_window c kvW₁ kvR cfg v₁ rnd₁ p₁ stored₁ hpat hok₁ h₁ hw₁,
+    mask_other_window c kvW₂ kvR cfg v₂ rnd₂ p₂ stored₂ hpat hok₂ h₂ hw₂, hwin]
+
+/-- **Left window ending in one or two `%`** (`100%| sure`, `50%%| off` – the run of `%` in front of the
+container is not a multiple of the tag length): if the rest of the window has no `%` and the container
+is shorter than 2^48 bytes, the window condition holds – so a non-owner receives exactly window and
+pattern, and the owner the value. The scan advances ONE byte after the failed parse at the first `%`
+and so meets the real container's tag; a scan that skipped the whole 3-byte tag would jump into it. -/
+theorem window_ok_trailing_pct (c : CryptoOps) (kvW : KeyView) (cfg : MaskCfg) (v rnd p w0 : Bytes) (j : Nat)
+    (hl : cfg.left = true) (hj : j ≤ 2)
+    (hwp : windowPart cfg v = w0 ++ List.replicate j 37) (hw0 : ∀ x ∈ w0, x ≠ 37)
+    (hnm : matchKind cfg.kind (hiddenPart cfg v) = false) (hnr : registryMatch (hiddenPart cfg v) = false)
+    (hp : protect c kvW cfg.kind (hiddenPart cfg v) rnd = .ok p) (hplen : p.length < 2^48) :
+    maskWindowOk cfg (windowPart cfg v) p = true := by
+  obtain ⟨e, _, _, rfl⟩ := c01_protect_ok hp hnm hnr
+  rw [c01_serBytes_length] at hplen
+  unfold maskWindowOk afterContainer
+  simp only [hl, if_true, Bool.and_eq_true]
+  refine ⟨?_, windowOk_nil _⟩
+  rw [hwp]
+  exact windowOk_trailing_pct w0 e [] cfg.kind.id j hj hw0 (by omega)
+
+/-- **Right window of at most 12 bytes, whatever it contains**: fewer than 13 bytes after the container
+can never be taken for a container, so the window condition holds for EVERY content. -/
+theorem window_ok_right_short (cfg : MaskCfg) (w p : Bytes) (hl : cfg.left = false) (hlen : w.length ≤ 12) :
+    maskWindowOk cfg w p = true := by
+  unfold maskWindowOk afterContainer
+  simp only [hl, Bool.false_eq_true, if_false, Bool.and_eq_true]
+  exact ⟨windowOk_nil _, windowOk_short w hlen⟩
+
+/-! ## 9. non-vacuity: every hypothesis bundle above is met by a concrete instance -/
 
 /-- LEFT window, AcraBlock kind, stand-in back end: "hello!" with a clear window of 2 bytes and pattern
 `***`; written with key `[1,2,3]`; the owner reads with the rotated key list `[[4,5],[1,2,3],[1,2,9]]`
@@ -663,5 +745,37 @@ example :
       (by rw [hpl, hhid]; decide) (Or.inl (by decide)) ⟨rfl, rfl⟩ hw
     rw [this, hwin]
     rfl
+
+/-- `100% sure` with a left window of 4 (`100%`) and pattern `*` (stand-in back end, AcraBlock kind): the
+window ends in `%` directly in front of the container's `%%%`; the window condition holds
+(`window_ok_trailing_pct`), a reader without keys gets `100%*`. -/
+example :
+    let cfg : MaskCfg := ⟨[42], 4, true, .block⟩
+    let v : Bytes := [49,48,48,37,32,115,117,114,101]
+    let kvW : KeyView := ⟨none, none, some [1,2,3], none⟩
+    let kvN : KeyView := ⟨none, none, none, none⟩
+    ∃ stored, maskWrite toyOps kvW cfg v (List.replicate 56 5) = .ok stored ∧
+      maskRead toyOps kvN cfg stored = .ok [49,48,48,37,42] true := by
+  intro cfg v kvW kvN
+  have hs := toy_sealLaws
+  have hsl := toy_sealLen
+  have hkid := keyId_length toyOps toy_hashLen [1,2,3] []
+  have hhid : hiddenPart cfg v = [32,115,117,114,101] := by decide
+  have hwin : windowPart cfg v = [49,48,48,37] := by decide
+  have hnm : matchKind cfg.kind (hiddenPart cfg v) = false := by rw [hhid]; decide
+  have hnr : registryMatch (hiddenPart cfg v) = false := by rw [hhid]; decide
+  obtain ⟨p, hp⟩ := protect_block_total toyOps hs kvW [1,2,3] (hiddenPart cfg v) (List.replicate 56 5) rfl (by decide)
+    (by rw [hhid]; decide) (by rw [hhid]; decide) (by decide)
+  obtain ⟨hpl, _⟩ := protect_block_length toyOps hs hsl kvW [1,2,3] _ _ p rfl hkid hnm hnr hp
+  have hpl' : p.length = 155 := by rw [hpl, hhid]; rfl
+  have hw : maskWrite toyOps kvW cfg v (List.replicate 56 5) = .ok (joinSides cfg (windowPart cfg v) p) := by
+    rw [maskWrite_eq toyOps kvW cfg v _ (by decide), hp]; rfl
+  have hok := window_ok_trailing_pct toyOps kvW cfg v _ p [49,48,48] 1 rfl (by decide) (by rw [hwin]; rfl) (by decide)
+    hnm hnr hp (by rw [hpl']; decide)
+  refine ⟨_, hw, ?_⟩
+  have := mask_other_window toyOps kvW kvN cfg v _ p _ (by decide) hok
+    (nonOwner_of_no_keys toyOps kvW kvN cfg v _ p hnm hnr hp (by rw [hpl']; decide) (Or.inl (by decide)) ⟨rfl, rfl⟩) hw
+  rw [this, hwin]
+  rfl
 
 end AcraModel.Props.C11
